@@ -37,7 +37,7 @@ class _FakeDgramTransport(FakeAsyncioTransport):
         self.write(data)
 
 
-def flow(senders: int, K: int, final: str, msglen: int = 2, prefix: list = (), target: str = "stream"):
+def flow(senders: int, K: int, final: str, msglen: int = 2, prefix: list = (), target: str = "stream", api: str = "all"):
     """target: stream | dgram-endpoint | dgram-listener (the two asyncio datagram protocols share WriteFlowControl; they keep
     asyncio's default write-buffer limits, so the harness lowers the fake transport's high-water mark to 1 byte to park senders)"""
 
@@ -50,6 +50,15 @@ def flow(senders: int, K: int, final: str, msglen: int = 2, prefix: list = (), t
                 p.connection_made(tr)
                 adapter = AsyncioTransportStreamSocketAdapter(be, tr, p)
                 high_after_init = tr.high
+                if api == "iter":  # the other entry point of the adapter: send_all_from_iterable (writelines)
+                    real = adapter
+
+                    class _It:
+                        @staticmethod
+                        async def send_all(data):
+                            await real.send_all_from_iterable(iter([data[:1], data[1:]]))
+
+                    adapter = _It
             else:
                 import asyncio as _aio
 
@@ -233,6 +242,11 @@ def shards(tier: str):
                 if final == "resume" and 4 in pre:
                     continue  # 'lose' events only exist in the lose finals
                 add(f"flow/{final}/s{senders}/K{K}/pre{''.join(map(str, pre))}", dict(senders=senders, K=K, final=final, prefix=list(pre)), cost=5 ** (K - len(pre)))
+    for final in ("resume", "lose-exc"):
+        for pre in range(5):
+            if final == "resume" and pre == 4:
+                continue
+            add(f"flow-iter/{final}/s2/K{K}/pre{pre}", dict(senders=2, K=K, final=final, prefix=[pre], api="iter"), cost=5 ** (K - 1))
     for target in ("dgram-endpoint", "dgram-listener"):
         for final in ("resume", "lose-exc"):
             for pre in range(5):
